@@ -77,8 +77,8 @@ def run(ctx):
     rule_id_lookup(ctx, r2)
     from .c08 import run as _unused  # noqa: F401  (shared helpers live in c08/persist)
     from .persist import rule_close_writes, rule_exit_persists
-    rule_exit_persists(ctx, r2)
-    rule_close_writes(ctx, r2)
+    rule_exit_persists(ctx, r2, ("tracked jobs",))
+    rule_close_writes(ctx, r2, ("tracked jobs",))
     rule_tracked_dump(ctx, r2)
 
     r3 = ctx.rule("R3", "local pool: the id list travels unchanged client -> wire -> scheduler -> task coroutine", min_instances=4)
@@ -129,31 +129,6 @@ def run(ctx):
 
 
 def rule_tracked_dump(ctx, r):
-    """What TrackingBackend.close() saves is the in-memory id table (ids recorded by this invocation win)."""
-    idx = ctx.index
-    tb = idx.cls("gwf.backends.base:TrackingBackend")
-    close_m = idx.method(tb, "close")
-    dump_obj = None
-    for c in _calls(close_m.node):
-        if isinstance(c.func, (ast.Name, ast.Attribute)) and idx.canon(c.func, close_m.module) == "json.dump" and c.args:
-            dump_obj = c.args[0]
-    ok = False
-    why = "close() does not json.dump anything"
-    if dump_obj is not None:
-        t = ast.unparse(dump_obj)
-        if t in ("self._tracked_jobs", "dict(self._tracked_jobs)"):
-            ok = True
-        elif isinstance(dump_obj, ast.Name):
-            assigns = [n for n in walk_no_nested(close_m.node) if isinstance(n, ast.Assign) and any(isinstance(x, ast.Name) and x.id == dump_obj.id for x in n.targets)]
-            muts = [c for c in _calls(close_m.node) if isinstance(c.func, ast.Attribute) and dotted(c.func.value) == dump_obj.id
-                    and c.func.attr in ("update", "pop", "clear", "setdefault", "popitem")]
-            muts += [n for n in walk_no_nested(close_m.node) if isinstance(n, (ast.Assign, ast.Delete)) and any(
-                isinstance(x, ast.Subscript) and dotted(x.value) == dump_obj.id for x in (n.targets if hasattr(n, "targets") else []))]
-            if len(assigns) == 1 and ast.unparse(assigns[0].value) in ("self._tracked_jobs", "dict(self._tracked_jobs)", "self._tracked_jobs.copy()") and not muts:
-                ok = True
-            else:
-                why = (f"close() saves `{dump_obj.id}`, which is not (a plain copy of) the in-memory job table: an id recorded by this invocation can be replaced "
-                       "by a stale one, so dependents are later held on a finished job instead of the running one")
-        else:
-            why = f"close() saves `{t[:60]}` instead of the in-memory job table"
-    r.check(ok, f"{close_m.module.relpath}::{close_m.qual}::dump", "the in-memory job table is what is saved", why, close_m.where)
+    """What TrackingBackend.close() saves is the in-memory id table (ids recorded by this invocation win over the file)."""
+    from .persist import rule_store_close
+    rule_store_close(ctx, r, which=("tracked jobs",))
